@@ -95,7 +95,7 @@ def cases(draw: Any, tier: str) -> Dict[str, Any]:
         if a is not None and a[0] == "v":
             prod = [x for x in P["body"] if x["out"] == a[1]][0]
             f = P["fns"][prod["fn"]]
-            if not f.get("setup") and f.get("kind") != "tup":
+            if not f.get("setup") and f.get("kind") not in ("tup", "dict"):
                 f["kind"] = "const"
                 f["val"] = draw(st.sampled_from([0, 1, "", "x", None, True, False]))
     case: Dict[str, Any] = {"prog": P, "mc": base["mc"], "async": base["async"], "calls": []}
